@@ -186,16 +186,11 @@ def tcp_scenarios(ctx, n):
 
 
 def run(ctx):
-    tcp_fail, tcp_cov = tcp_scenarios(ctx, 12 if ctx.tier == "quick" else 240)
-    orig_finish = C.Verdict.finish
+    def side(ctx2, proof):
+        tcp_fail, tcp_cov = tcp_scenarios(ctx2, (12 if ctx2.tier == "quick" else 240) * (1 if proof["build_ok"] else 3))
+        return [(kc or key, what, rp) for key, what, rp, kc in tcp_fail], tcp_cov
 
-    def finish(self):
-        for key, what, rp, kc in tcp_fail[:3]:
-            self.add(kc or key, what, rp)
-        return orig_finish(self)
-
-    C.Verdict.finish = finish
-    try:
+    if True:
         return L.run_link_property(
             ctx, PID, gen_cases, oracle,
             classify=lambda w: "bookkeeping-left" if "link entries" in w else ("goroutines-left" if "goroutines" in w else "crash"),
@@ -208,9 +203,7 @@ def run(ctx):
             assumptions=["known finding F7: when the downstream end goes away while a send is pending upstream, the reader and the stages upstream "
                          "stay blocked for ever (no drain-or-abort path through the chain)",
                          "kernel socket teardown timing and the garbage collector are outside the model; the census waits 200-300 ms"],
-            model_filter=lambda c: False, known_class=known_class, extra_cov=lambda cs, rs: tcp_cov)
-    finally:
-        C.Verdict.finish = orig_finish
+            model_filter=lambda c: False, known_class=known_class, side_findings=side)
 
 
 def replay(ctx, path):
